@@ -459,6 +459,9 @@ pub struct Defects {
     pub stc_predec_is_postinc: bool,
     /// instruction fetch from outside the address map panics (`fetch()` unwraps the bus result)
     pub fetch_unwrap: bool,
+    /// not a defect model but an oracle option (C09): a W/L MOV operand at an odd address is the
+    /// big-endian composition of the consecutive bytes A..A+n-1 (C01 leaves odd addresses open)
+    pub strict_odd: bool,
 }
 
 pub const DEFECT_KEYS: &[&str] = &["shal-v-is-msb", "stc-predec-is-postinc", "fetch-unwrap"];
@@ -566,7 +569,7 @@ fn exec_inner<M: MemRead>(row: usize, f: &Fields, len: usize, i: &RefIn, mem: &M
                 Mode::A24 => f.data & M24,
                 _ => unreachable!(),
             };
-            if n > 1 && ea & 1 != 0 {
+            if n > 1 && ea & 1 != 0 && !d.strict_odd {
                 wr_n_dontcare(&mut o, ea, n, store);
                 return o.any("word/long operand at an odd address");
             }
